@@ -14,8 +14,13 @@
    stored, handed to the callback and compared for identity; in particular
    None is a value like any other, distinct from "no such gene" / "no such log
    entry" (which are [option]s here and `dict.get` / loop fall-through
-   sentinels in the Python).  mutation_rate = 0 (the random-mutation loop of
-   replicate is outside the property).
+   sentinels in the Python).  The only place where the code computes with a
+   value is the random-mutation loop of replicate (mutation_rate > 0): there
+   `value + value * 0.1 * (random.random() - 0.5)` is evaluated in IEEE
+   binary64 by the Gallina specification of floating-point arithmetic
+   (Coq.Floats.SpecFloat: pure definitions, no primitive floats, no axioms);
+   mutation_rate and the numbers random.random() returns are k/64 (the
+   harness scripts random.random), so `random.random() < rate` is exact.
 
    get_hash is md5 of the JSON of the sorted name->value map; it is modelled
    by that sorted association list itself ([ghash]), so "same hash" is "same
@@ -23,12 +28,13 @@
    different texts); the correspondence compares hashes only for (in)equality
    through ids given in order of first appearance. *)
 From Coq Require Import ZArith List Bool.
+From Coq Require Import Floats.SpecFloat.
 Import ListNotations.
 Open Scope Z_scope.
 
 Inductive gtype := Structural | Regulatory | Housekeeping | Conditional | Dormant.
 Inductive level := Silenced | Low | Normal | High | Over.
-Inductive reason := RUser | RRollback | RReplication.
+Inductive reason := RUser | RRollback | RReplication | RRandom.
 
 (* a configuration value (Gene.value : Any, restricted to what json renders
    injectively) *)
@@ -79,7 +85,8 @@ Record genome := mkGenome {
   tbl : table;
   mlog : list mrec;
   generation : Z;
-  parent : option (list (Z * val)) }.      (* _parent_hash *)
+  parent : option (list (Z * val));        (* _parent_hash *)
+  mrate : Z }.                             (* mutation_rate, in 64ths *)
 
 (* ---- dict operations -------------------------------------------------- *)
 
@@ -97,9 +104,9 @@ Fixpoint put (t : table) (e : entry) : table :=
   end.
 
 Definition set_tbl (G : genome) (t : table) : genome :=
-  mkGenome (allow G) (cb G) t (mlog G) (generation G) (parent G).
+  mkGenome (allow G) (cb G) t (mlog G) (generation G) (parent G) (mrate G).
 Definition add_log (G : genome) (m : mrec) : genome :=
-  mkGenome (allow G) (cb G) (tbl G) (mlog G ++ [m]) (generation G) (parent G).
+  mkGenome (allow G) (cb G) (tbl G) (mlog G ++ [m]) (generation G) (parent G) (mrate G).
 
 Definition stored (G : genome) (n : Z) : option val :=
   match lookup (tbl G) n with Some e => Some (value e) | None => None end.
@@ -189,17 +196,24 @@ Definition g_get_value (G : genome) (n : Z) (default : val) : val :=
   | Some e => if is_silenced (e_level e) then default else value e
   end.
 
-Definition empty_genome (a : bool) (c : option oracle) : genome :=
-  mkGenome a c [] [] 0 None.
+Definition empty_genome_r (a : bool) (c : option oracle) (rate : Z) : genome :=
+  mkGenome a c [] [] 0 None rate.
 
-(* Genome(genes=..., allow_mutations=a, on_mutation=c) *)
+(* Genome(genes=..., allow_mutations=a, on_mutation=c, mutation_rate=rate/64) *)
+Definition init_genome_r (a : bool) (c : option oracle) (rate : Z) (genes : list gene) : genome :=
+  fold_left (fun G g => fst (g_add G g)) genes (empty_genome_r a c rate).
+
+(* mutation_rate = 0 (the constructor's default) *)
+Definition empty_genome (a : bool) (c : option oracle) : genome := empty_genome_r a c 0.
 Definition init_genome (a : bool) (c : option oracle) (genes : list gene) : genome :=
-  fold_left (fun G g => fst (g_add G g)) genes (empty_genome a c).
+  init_genome_r a c 0 genes.
 
-(* replicate(mutations, inherit_expression), mutation_rate = 0 *)
+(* replicate(mutations, inherit_expression): the child is a fresh Genome built
+   from the parent's (frozen) genes with the parent's allow_mutations, callback
+   and mutation_rate *)
 Definition child_base (G : genome) : genome :=
-  let c0 := init_genome (allow G) (cb G) (map e_gene (tbl G)) in
-  mkGenome (allow c0) (cb c0) (tbl c0) (mlog c0) (generation G + 1) (Some (ghash G)).
+  let c0 := init_genome_r (allow G) (cb G) (mrate G) (map e_gene (tbl G)) in
+  mkGenome (allow c0) (cb c0) (tbl c0) (mlog c0) (generation G + 1) (Some (ghash G)) (mrate c0).
 
 Definition inherit_levels (C : genome) (ptbl : table) : genome :=
   fold_left (fun C e => fst (g_set_level C (key e) (e_level e))) ptbl C.
@@ -207,10 +221,98 @@ Definition inherit_levels (C : genome) (ptbl : table) : genome :=
 Definition apply_muts (C : genome) (muts : list (Z * val)) : genome :=
   fold_left (fun C nv => fst (g_mutate C (fst nv) (snd nv) RReplication)) muts C.
 
+(* the child up to and including the specified mutations *)
 Definition g_replicate (G : genome) (muts : list (Z * val)) (inh : bool) : genome :=
   let c1 := child_base G in
   let c2 := if inh then inherit_levels c1 (tbl G) else c1 in
   apply_muts c2 muts.
+
+(* ---- random mutations during replication (mutation_rate > 0) ----------
+
+     for gene_name in child._genes:
+         if random.random() < self.mutation_rate:
+             gene = child._genes[gene_name]
+             if isinstance(gene.value, (int, float)):
+                 delta = gene.value * 0.1 * (random.random() - 0.5)
+                 new_value = gene.value + delta
+                 if isinstance(gene.value, int): new_value = int(new_value)
+                 child.mutate(gene_name, new_value, "random_mutation")
+
+   IEEE binary64 arithmetic, round to nearest even. *)
+Definition fl_norm (m e : Z) : spec_float := binary_normalize 53 1024 m e false.   (* the float nearest m * 2^e *)
+Definition fl_tenth : spec_float := fl_norm 3602879701896397 (-55).                 (* the literal 0.1 *)
+
+(* v + (v * 0.1) * (k/64 - 0.5); k/64 - 0.5 = (k - 32) / 64 is exact *)
+Definition fl_perturb (fv : spec_float) (k : Z) : spec_float :=
+  SFadd 53 1024 fv (SFmul 53 1024 (SFmul 53 1024 fv fl_tenth) (fl_norm (k - 32) (-6))).
+
+(* int(x) of a finite float: truncation toward zero *)
+Definition fl_trunc (f : spec_float) : option Z :=
+  match f with
+  | S754_zero _ => Some 0
+  | S754_finite s m e =>
+      let z := cond_Zopp s (Zpos m) in
+      Some (if 0 <=? e then z * 2 ^ e else Z.quot z (2 ^ (- e)))
+  | _ => None
+  end.
+
+(* a finite float as a configuration value (its exact fraction in lowest
+   terms); -0.0, infinities and nan are outside the modelled values *)
+Definition fl_val (f : spec_float) : option val :=
+  match f with
+  | S754_zero false => Some (VFloat 0 1)
+  | S754_finite s m e =>
+      let z := cond_Zopp s (Zpos m) in
+      if 0 <=? e then Some (VFloat (z * 2 ^ e) 1)
+      else let d := 2 ^ (- e) in let g := Z.gcd z d in Some (VFloat (z / g) (d / g))
+  | _ => None
+  end.
+
+(* the value a random mutation proposes for a gene holding v when
+   random.random() returns k/64; None: v is not an int/bool/float (no attempt
+   is made), or the result is not a finite float (Python raises OverflowError
+   or produces inf/nan: outside the modelled values, not generated) *)
+Definition perturb (v : val) (k : Z) : option val :=
+  match v with
+  | VInt z => option_map VInt (fl_trunc (fl_perturb (fl_norm z 0) k))
+  | VBool b => option_map VInt (fl_trunc (fl_perturb (fl_norm (if b then 1 else 0) 0) k))   (* bool is an int *)
+  | VFloat n d => fl_val (fl_perturb (fl_norm n (- Z.log2 d)) k)                            (* d = 2^j *)
+  | _ => None
+  end.
+
+Definition is_numeric (v : val) : bool :=
+  match v with VInt _ | VBool _ | VFloat _ _ => true | _ => false end.
+
+(* the scripted random.random(): the next number of the script, 32/64 once it
+   is exhausted *)
+Definition draw (ds : list Z) : Z * list Z :=
+  match ds with [] => (32, []) | k :: r => (k, r) end.
+
+(* the loop over the child's gene names; every change goes through mutate *)
+Fixpoint random_muts (C : genome) (rate : Z) (names : list Z) (ds : list Z) : genome :=
+  match names with
+  | [] => C
+  | n :: rest =>
+      let '(u, ds1) := draw ds in
+      if u <? rate then
+        match stored C n with
+        | Some v =>
+            if is_numeric v then
+              let '(k, ds2) := draw ds1 in
+              match perturb v k with
+              | Some w => random_muts (fst (g_mutate C n w RRandom)) rate rest ds2
+              | None => random_muts C rate rest ds2
+              end
+            else random_muts C rate rest ds1
+        | None => random_muts C rate rest ds1
+        end
+      else random_muts C rate rest ds1
+  end.
+
+(* replicate(mutations, inherit_expression) with random.random() scripted by ds *)
+Definition g_replicate_full (G : genome) (muts : list (Z * val)) (inh : bool) (ds : list Z) : genome :=
+  let c := g_replicate G muts inh in
+  if 0 <? mrate G then random_muts c (mrate G) (map key (tbl c)) ds else c.
 
 (* ---- the lineage: genomes addressed by index --------------------------- *)
 
@@ -221,7 +323,7 @@ Inductive gop :=
 | OSetExpr (n : Z) (l : level)
 | OSilence (n : Z)
 | OActivate (n : Z)
-| OReplicate (muts : list (Z * val)) (inh : bool)
+| OReplicate (muts : list (Z * val)) (inh : bool) (ds : list Z)   (* ds: what random.random() returns, in 64ths *)
 | OExpress (ctx : list Z).
 
 Inductive out :=
@@ -239,7 +341,7 @@ Definition g_step (G : genome) (o : gop) : genome * bool :=
   | OSetExpr n l => g_set_level G n l
   | OSilence n => g_set_level G n Silenced
   | OActivate n => g_set_level G n Normal
-  | OReplicate _ _ => (G, true)
+  | OReplicate _ _ _ => (G, true)
   | OExpress _ => (G, true)
   end.
 
@@ -258,7 +360,7 @@ Fixpoint set_nth (W : world) (i : nat) (G : genome) : world :=
 
 Definition born (G : genome) (o : gop) : list genome :=
   match o with
-  | OReplicate muts inh => [g_replicate G muts inh]
+  | OReplicate muts inh ds => [g_replicate_full G muts inh ds]
   | _ => []
   end.
 
@@ -269,7 +371,7 @@ Definition step (W : world) (io : op) : world * out :=
   | Some G =>
       (set_nth W i (fst (g_step G o)) ++ born G o,
        match o with
-       | OReplicate _ _ => RetChild (length W)
+       | OReplicate _ _ _ => RetChild (length W)
        | OExpress ctx => RetConfig (g_express G ctx)
        | _ => RetBool (snd (g_step G o))
        end)
@@ -298,7 +400,7 @@ Inductive orule :=
 | RGrow.                                           (* num(new_value) > num(original) *)
 
 Definition reason_code (r : reason) : Z :=
-  match r with RUser => 0 | RRollback => 1 | RReplication => 2 end.
+  match r with RUser => 0 | RRollback => 1 | RReplication => 2 | RRandom => 3 end.
 
 Definition opt_match (p : option Z) (x : Z) : bool :=
   match p with None => true | Some y => y =? x end.
@@ -429,11 +531,11 @@ Fixpoint run_obs (t : htable) (W : world) (ops : list op) : list (list Z) :=
       (out_row r :: acted ++ child ++ lr) ++ run_obs t' W' rest
   end.
 
-(* allow_mutations, callback (None = no on_mutation), initial genes, operations *)
-Definition case := (bool * option (list orule) * list gene * list op)%type.
+(* allow_mutations, callback (None = no on_mutation), mutation_rate (64ths), initial genes, operations *)
+Definition case := (bool * option (list orule) * Z * list gene * list op)%type.
 
 Definition run_case (c : case) : list (list Z) :=
-  let '(a, orc, genes, ops) := c in
-  let G0 := init_genome a (option_map interp_oracle orc) genes in
+  let '(a, orc, rate, genes, ops) := c in
+  let G0 := init_genome_r a (option_map interp_oracle orc) rate genes in
   let '(t, lr) := light_rows [] [G0] in
   (detail_rows G0 0 ++ lr) ++ run_obs t [G0] ops.
